@@ -5,7 +5,8 @@ From BS Require Export Lib.Bytes Model.Json Model.Expr Model.MinMax.
 
 (* sr_id only identifies a stored row in correspondence cases; no definition inspects it *)
 Record srow := { sr_id : Z; sr_json : json; sr_pre : prow }.
-Record block := { bk_meta : blockmeta; bk_filters : filters; bk_rows : list srow }.
+(* bk_section: the block has a filter section in its file's block filter region (BloomFilterSize > 0) *)
+Record block := { bk_meta : blockmeta; bk_filters : filters; bk_section : bool; bk_rows : list srow }.
 Record file := { fl_filters : filters; fl_blocks : list block }.
 Record query := { q_pre : option pexpr; q_bloom : option bexpr; q_regex : option rexpr }.
 
@@ -33,6 +34,27 @@ Section Query.
     flat_map (fun b => if block_selected q f b then scan_block q b else []) (fl_blocks f).
 
   Definition run_query (q : query) (files : list file) : list srow := flat_map (scan_file q) files.
+
+  (* ---- what a query may touch (C24): decisions of the file stage, evaluateBlockFilters and the block workers ---- *)
+  Definition passes_pre (q : query) (b : block) : bool := block_passes (q_pre q) (bk_meta b).
+
+  (* the file reaches a file worker: some block survives the prefilter and the file-level test passes *)
+  Definition file_candidate (q : query) (f : file) : bool :=
+    existsb (passes_pre q) (fl_blocks f) && prune_q (fl_filters f) (pq q).
+
+  (* the block filter region is read: only with bloom conditions, and only for sections of prefilter survivors *)
+  Definition reads_region (q : query) (f : file) : bool :=
+    match pq q with
+    | None => false
+    | Some _ => file_candidate q f && existsb (fun b => passes_pre q b && bk_section b) (fl_blocks f)
+    end.
+
+  (* row data of a block is read iff the block is selected *)
+  Definition reads_rows (q : query) (f : file) (b : block) : bool := block_selected q f b.
+
+  (* the file is opened through the DataStore iff its region or some block's row data is read *)
+  Definition opens_file (q : query) (f : file) : bool :=
+    reads_region q f || existsb (reads_rows q f) (fl_blocks f).
 
   Definition all_blocks (files : list file) : list block := flat_map fl_blocks files.
   Definition all_rows (files : list file) : list srow := flat_map bk_rows (all_blocks files).
